@@ -148,3 +148,47 @@ fn verif_c11_shares_len_with_signer() {
     if bad.is_empty() { println!("NO-WITNESS D7: shares_len agrees with to_shares for signer blobs of 440..500 bytes"); }
     else { println!("WITNESS C11/D7: blob with signer: (data len, shares_len(), to_shares().len()) = {:?} ... {} lengths in total", &bad[..bad.len().min(3)], bad.len()); }
 }
+
+// ---------------------------------------------------------------------------------------------
+// C04 replays. D5: a sample must verify only for ITS coordinates; D12: from_raw must not panic on long sibling lists
+// ---------------------------------------------------------------------------------------------
+#[test]
+fn verif_c04_sample_position_not_bound() {
+    use crate::sample::{Sample, SampleId};
+    use crate::eds::AxisType;
+    let eds = generate_dummy_eds(4, AppVersion::V2);
+    let dah = DataAvailabilityHeader::from_eds(&eds);
+    // honest sample of (row 0, col 1) with a row proof ...
+    let sample = Sample::new(0, 1, AxisType::Row, &eds).unwrap();
+    sample.verify(SampleId::new(0, 1, 1).unwrap(), &dah).expect("honest sample verifies");
+    // ... presented for other columns of the same row
+    let mut accepted = vec![];
+    for col in [0u16, 2, 3] {
+        if sample.verify(SampleId::new(0, col, 1).unwrap(), &dah).is_ok() { accepted.push(col); }
+    }
+    // column proof of (1,2) presented for another row of the same column
+    let csample = Sample::new(1, 2, AxisType::Col, &eds).unwrap();
+    let mut caccepted = vec![];
+    for row in [0u16, 2, 3] {
+        if csample.verify(SampleId::new(row, 2, 1).unwrap(), &dah).is_ok() { caccepted.push(row); }
+    }
+    if accepted.is_empty() && caccepted.is_empty() { println!("NO-WITNESS D5: samples are rejected for foreign coordinates"); }
+    else { println!("WITNESS C04/D5: row-proof sample of (0,1) verifies for SampleId (0,{accepted:?}); column-proof sample of (1,2) verifies for SampleId ({caccepted:?},2)"); }
+}
+
+#[test]
+fn verif_c04_from_raw_many_siblings() {
+    use crate::sample::{Sample, SampleId};
+    use celestia_proto::shwap::{Sample as RawSample, Share as RawShare};
+    use celestia_proto::proof::pb::Proof as RawProof;
+    let raw = RawSample {
+        share: Some(RawShare { data: vec![0u8; 512] }),
+        proof: Some(RawProof { start: 0, end: 1, nodes: vec![vec![0u8; 90]; 64], leaf_hash: vec![], is_max_namespace_ignored: true }),
+        proof_type: 0,
+    };
+    let res = std::panic::catch_unwind(|| Sample::from_raw(SampleId::new(0, 0, 1).unwrap(), raw).map(|_| ()));
+    match res {
+        Err(_) => println!("WITNESS C04/D12: Sample::from_raw with 64 proof nodes panics (shift overflow in NamespaceProof::total_leaves)"),
+        Ok(r) => println!("NO-WITNESS D12: from_raw returned {:?}", r.map_err(|e| e.to_string())),
+    }
+}
